@@ -196,3 +196,15 @@ func MaybeReplay() {
 
 // HexBig formats an integer as 64 hex digits (or more if larger).
 func HexBig(v *big.Int) string { return fmt.Sprintf("%064x", v) }
+
+// Safe runs a single-case runner, converting a panic (of the implementation
+// or of the harness) into a mismatch string so that it is reported with its
+// case descriptor instead of killing the explorer.
+func Safe(f func() string) (m string) {
+	defer func() {
+		if x := recover(); x != nil {
+			m = fmt.Sprint("panic: ", x)
+		}
+	}()
+	return f()
+}
